@@ -117,7 +117,24 @@ fn val_fits(v: &Val, s: Sort) -> bool {
     }
 }
 
+/// With `simplify = true` the encoder was given the simplified system. A faithfulness mismatch
+/// against the system as generated that disappears without simplification is caused by
+/// simplification (C01/C11, not claimed here): counted, not reported.
 fn judge_encoding(scn: &EncScenario, acc: &mut Acc) -> Option<Violation> {
+    let v = judge_encoding_raw(scn, acc)?;
+    if scn.simplify && v.oracle == "C04/faithful" {
+        let mut plain = scn.clone();
+        plain.simplify = false;
+        let mut scratch = Acc::default();
+        if judge_encoding_raw(&plain, &mut scratch).is_none() {
+            acc.count("note.discrepancy_attributed_to_simplification", 1);
+            return None;
+        }
+    }
+    Some(v)
+}
+
+fn judge_encoding_raw(scn: &EncScenario, acc: &mut Acc) -> Option<Violation> {
     let tcfg = TransportCfg {
         benign: scn.benign,
         ..Default::default()
@@ -384,13 +401,22 @@ impl Property for C04 {
         // (a) direct driver of the unrolling API; no exhaustive oracle needed, so larger systems
         // and the init-without-next shape are allowed
         let clash = crng.chance(1, 5);
-        let sys = gen_system(&mut rng, msb, mib, false, |c| {
-            c.init_without_next = true;
-            if clash {
-                c.named_nodes = true;
-                c.clash_names = true;
-            }
-        });
+        let huge = crng.chance(1, 4);
+        let sys = if huge {
+            gen_huge_system(&mut rng, |c| {
+                c.init_without_next = true;
+                c.division = true;
+            })
+        } else {
+            gen_system(&mut rng, msb, mib, false, |c| {
+                c.init_without_next = true;
+                if clash {
+                    c.named_nodes = true;
+                    c.clash_names = true;
+                }
+            })
+        };
+        acc.count("probe.system_with_wide_values_or_many_states", huge as u64);
         acc.count("probe.system_with_generated_looking_names", crate::sgen::sysgen::has_clash_names(&sys) as u64);
         acc.count("probe.signal_shared_by_init_and_next", use_class_probe(&sys) as u64);
         acc.count("probe.state_with_init_without_next", sys.states.iter().any(|s| s.init.is_some() && s.next.is_none()) as u64);
@@ -401,7 +427,7 @@ impl Property for C04 {
                 profile: crng.usize_below(4),
                 simplify: crng.bool(),
                 entry,
-                unrolls: crng.range(0, 4),
+                unrolls: if crng.chance(1, 8) { crng.range(5, 12) } else { crng.range(0, 4) },
                 sim_seed: crate::rng::mix(&[run_seed, 4, variant]),
                 benign: true,
             };
